@@ -227,6 +227,10 @@ def classify(case, clause):
         # the wrapper knows nothing about markup: it cuts tags - and backslash escapes - apart
         cells = ([case["header"]] if case["header"] else []) + case["rows"]
         if any("<" in row[c] for row in cells for c in long_cols):
+            if case["tagged"] and clause in ("width", "rectangle", "column-span") and case.get("markup_visible") is False:
+                # the mechanism of the known finding leaves its mark: pieces of a cut tag are printed. A geometry
+                # violation of a table whose output shows no '<' or '>' at all is something else
+                return None
             return "style-tag-cut-by-wrapping"
     return None
 
@@ -357,6 +361,8 @@ def judge(sh, lab, case):
     if lines and lines[-1] == "":
         lines.pop()
     W = case["width"]
+    if case["tagged"]:
+        case["markup_visible"] = any(("<" in l or ">" in l) for l in lines)
     # (2) width
     too_wide = [l for l in lines if len(l) > W]
     if too_wide:
